@@ -313,6 +313,16 @@ fn gen_wand_query(rng: &mut StdRng) -> Value {
         let oc = if rng.random_bool(0.5) { "should" } else { "must" };
         return qlib::bool_json(words[..k].iter().map(|x| json!({"o":oc,"q":nfq(x)})).collect(), None);
     }
+    if rng.random_bool(0.14) {
+        // the sparse field `note` (average field length below 1): single terms, unions and intersections of its two words
+        let nq = |x: &str| json!({"k":"term","f":"note","t":x,"opt":"freq"});
+        return match rng.random_range(0..4) {
+            0 => nq("n0"),
+            1 => nq("n1"),
+            2 => qlib::bool_json(vec![json!({"o":"should","q":nq("n0")}), json!({"o":"should","q":nq("n1")})], None),
+            _ => qlib::bool_json(vec![json!({"o":"must","q":nq("n0")}), json!({"o":"must","q":nq("n1")})], None),
+        };
+    }
     if rng.random_bool(0.1) {
         // a single frequent term / a pair: the block-max bound of blocks that hold a very long document
         let q0 = json!({"k":"term","f":"body","t":format!("b{}", rng.random_range(0..2)),"opt":"freq"});
